@@ -356,6 +356,14 @@ func offer(w *tj.Writer, r *rand.Rand, idx int) {
 		fb = 8 + r.Intn(8) // far ahead: block sync territory
 	}
 	behaviour := []string{"honest", "honest", "corrupt", "truncate"}[r.Intn(4)]
+	// "lazy" own fork: long, but forged by one validator only (no prevotes), against a shorter peer chain that all
+	// validators signed: the better chain (larger maxHeightPrevoted) lies more than two rounds BELOW the node's tip
+	lazy := r.Intn(5) == 0
+	if lazy {
+		fa = 11 + r.Intn(4)
+		fb = 3 + r.Intn(2)
+		behaviour = "honest"
+	}
 	slot := 1
 	fail := func(e error) {
 		mu.Lock()
@@ -379,7 +387,11 @@ func offer(w *tj.Writer, r *rand.Rand, idx int) {
 			fail(err)
 			return
 		}
-		sa += 1 + r.Intn(2)*3
+		if lazy {
+			sa += 3 // always the same validator's slot
+		} else {
+			sa += 1 + r.Intn(2)*3
+		}
 	}
 	for i := 0; i < fb; i++ {
 		if _, err := b.Extend(sb, i%2); err != nil {
